@@ -99,10 +99,14 @@ EmptyContent(solver) ==
    rule |-> [r \in RxU |-> RuleNone], objc |-> [r \in RxU |-> 0], dir |-> "max",
    sbo |-> [r \in RxU |-> "none"],
    func |-> [g \in GeneU |-> TRUE], member |-> [g \in GrpU |-> {}],
-   ann |-> [x \in AllIds |-> 0], note |-> [x \in AllIds |-> 0], xcols |-> {}, xrows |-> {}, solver |-> solver]
+   ann |-> [x \in AllIds |-> 0], note |-> [x \in AllIds |-> 0],
+   \* plain attributes as tokens: name (all objects), formula and charge (metabolites; charge 99 = None),
+   \* subsystem (reactions); 0 = the default the driver creates objects with
+   attr |-> [x \in AllIds |-> [name |-> 0, formula |-> 0, charge |-> 99, subsys |-> 0]],
+   xcols |-> {}, xrows |-> {}, solver |-> solver]
 NoModel == [none |-> TRUE]
 NoDet == [present |-> FALSE, st |-> [m \in {} |-> 0], lb |-> 0, ub |-> 0, rule |-> [k |-> "none", id |-> "", ch |-> <<>>],
-          sbo |-> "none", ann |-> 0, note |-> 0]
+          sbo |-> "none", ann |-> 0, note |-> 0, attr |-> [name |-> 0, formula |-> 0, charge |-> 99, subsys |-> 0]]
 IsModel(c) == "rxns" \in DOMAIN c
 
 MetsOfRxn(C, r) == {m \in MetU : C.S[r][m] # 0}
@@ -133,6 +137,8 @@ Canon(C) ==
                                        THEN C.member[g] \cap (C.rxns \cup C.mets \cup C.genes \cup C.groups)
                                        ELSE {}],
             !.xrows = C.xrows \ C.mets,
+            !.attr = [x \in AllIds |-> IF x \in (C.rxns \cup C.mets \cup C.genes \cup {"MODEL"}) THEN C.attr[x]
+                                       ELSE [name |-> 0, formula |-> 0, charge |-> 99, subsys |-> 0]],
             !.ann = [x \in AllIds |-> IF x \in (C.rxns \cup C.mets \cup C.genes \cup {"MODEL"}) THEN C.ann[x] ELSE 0],
             !.note = [x \in AllIds |-> IF x \in (C.rxns \cup C.mets \cup C.genes \cup {"MODEL"}) THEN C.note[x] ELSE 0]]
 
@@ -303,7 +309,9 @@ A_RenameGene(C, old, new) ==
                            !.ann = [x \in AllIds |-> IF x = new /\ new \notin C.genes THEN C.ann[old]
                                                      ELSE IF x = old THEN 0 ELSE C.ann[x]],
                            !.note = [x \in AllIds |-> IF x = new /\ new \notin C.genes THEN C.note[old]
-                                                      ELSE IF x = old THEN 0 ELSE C.note[x]]]
+                                                      ELSE IF x = old THEN 0 ELSE C.note[x]],
+                           !.attr = [x \in AllIds |-> IF x = new /\ new \notin C.genes
+                                                      THEN [C.attr[old] EXCEPT !.name = C.attr[old].name] ELSE C.attr[x]]]
        IN Ok(C1)
 
 \* a whole rename dictionary, processed entry by entry (a later entry sees the genes as the earlier ones left
@@ -329,6 +337,7 @@ A_RenameReaction(C, r, new) ==
                     !.ub = SwapKey(C.ub, r, new, 0), !.rule = SwapKey(C.rule, r, new, RuleNone),
                     !.objc = SwapKey(C.objc, r, new, 0), !.sbo = SwapKey(C.sbo, r, new, "none"),
                     !.ann = SwapKey(C.ann, r, new, 0), !.note = SwapKey(C.note, r, new, 0),
+                    !.attr = SwapKey(C.attr, r, new, [name |-> 0, formula |-> 0, charge |-> 99, subsys |-> 0]),
                     !.member = [g \in GrpU |-> IF r \in C.member[g] THEN (C.member[g] \ {r}) \cup {new} ELSE C.member[g]]])
 A_RenameMetabolite(C, m, new) ==     \* (compartments are tied to the ids in this model of the universe)
   IF m \notin C.mets \/ m = new \/ CompOf(m) # CompOf(new) THEN FailLoose(C, "skip")
@@ -336,6 +345,7 @@ A_RenameMetabolite(C, m, new) ==     \* (compartments are tied to the ids in thi
   ELSE Ok([C EXCEPT !.mets = (@ \ {m}) \cup {new},
                     !.S = [r \in RxU |-> SwapKey(C.S[r], m, new, 0)],
                     !.ann = SwapKey(C.ann, m, new, 0), !.note = SwapKey(C.note, m, new, 0),
+                    !.attr = SwapKey(C.attr, m, new, [name |-> 0, formula |-> 0, charge |-> 99, subsys |-> 0]),
                     !.member = [g \in GrpU |-> IF m \in C.member[g] THEN (C.member[g] \ {m}) \cup {new} ELSE C.member[g]]])
 
 \* objective
@@ -381,6 +391,12 @@ A_AddGroup(C, g, members) ==
   ELSE IF g \in C.groups THEN Ok(C)
   ELSE Ok([C EXCEPT !.groups = @ \cup {g}, !.member[g] = members])
 A_RemoveGroup(C, g) == IF g \in C.groups THEN Ok([C EXCEPT !.groups = @ \ {g}]) ELSE Ok(C)
+\* x.name / metabolite.formula / metabolite.charge / reaction.subsystem = token
+A_SetAttr(C, x, field, v) ==
+  IF x \notin (C.rxns \cup C.mets \cup C.genes) THEN FailLoose(C, "skip")
+  ELSE IF field \in {"formula", "charge"} /\ x \notin C.mets THEN FailLoose(C, "skip")
+  ELSE IF field = "subsys" /\ x \notin C.rxns THEN FailLoose(C, "skip")
+  ELSE Ok([C EXCEPT !.attr[x] = [@ EXCEPT ![field] = v]])
 A_Annotate(C, x, v, via) ==     \* via 0: annotation[k] = v; 1: annotation = {...}; 2: notes[k] = v as well
   IF x \notin (C.rxns \cup C.mets \cup C.genes \cup {"MODEL"}) THEN FailLoose(C, "skip")
   ELSE Ok([C EXCEPT !.ann[x] = v, !.note[x] = IF via = 2 THEN v ELSE @])
@@ -398,7 +414,9 @@ A_RoundTrip(C, fmt) ==
   IF fam = "pickle" THEN Ok(C)
   ELSE Ok([C EXCEPT !.solver = "glpk", !.xcols = {}, !.xrows = {},
                     !.func = [g \in GeneU |-> TRUE],
-                    !.groups = IF fam = "sbml" THEN @ ELSE {}])
+                    !.groups = IF fam = "sbml" THEN @ ELSE {},
+                    \* subsystems are not among what C10 lists for SBML (-1 = not compared)
+                    !.attr = IF fam = "sbml" THEN [x \in AllIds |-> [C.attr[x] EXCEPT !.subsys = -1]] ELSE @])
 
 \* expected detached result of reaction arithmetic (kind: "copy" | "add" | "sub" | "mul")
 ArithResult(C, kind, r, q, k) ==
@@ -419,7 +437,8 @@ SRes(St, raises, atomic, ret) == [st |-> St, raises |-> raises, atomic |-> atomi
 Departed(St, s, C2) ==
   [r \in RxU |-> IF IsModel(St.m[s]) /\ r \in St.m[s].rxns /\ r \notin C2.rxns
                  THEN [present |-> TRUE, st |-> St.m[s].S[r], lb |-> St.m[s].lb[r], ub |-> St.m[s].ub[r],
-                       rule |-> St.m[s].rule[r], sbo |-> St.m[s].sbo[r], ann |-> St.m[s].ann[r], note |-> St.m[s].note[r]]
+                       rule |-> St.m[s].rule[r], sbo |-> St.m[s].sbo[r], ann |-> St.m[s].ann[r], note |-> St.m[s].note[r],
+                       attr |-> St.m[s].attr[r]]
                  ELSE St.det[s][r]]
 Lift(St, s, r) == SRes([St EXCEPT !.m[s] = r.c, !.det[s] = Departed(St, s, r.c)], r.raises, r.atomic, r.ret)
 Skip(St) == SRes(St, "skip", FALSE, NoRet)
@@ -458,6 +477,7 @@ ContentOp(op, C) ==
     [] op.a = "AddGroup"           -> A_AddGroup(C, op.g, SeqSet(op.members))
     [] op.a = "RemoveGroup"        -> A_RemoveGroup(C, op.g)
     [] op.a = "Annotate"           -> A_Annotate(C, op.x, op.v, op.via)
+    [] op.a = "SetAttr"            -> A_SetAttr(C, op.x, op.field, op.v)
     [] op.a = "RoundTrip"          -> A_RoundTrip(C, op.fmt)
     [] op.a = "GetMedium"          -> IF HasExt(C) THEN Ok(C) ELSE FailLoose(C, "skip")   \* which reactions are exchanges
                                                                       \* is a naming heuristic otherwise
@@ -481,9 +501,9 @@ ContentActions == {"AddMetabolites", "RemoveMetabolites", "AddReactions", "Remov
                    "SetBounds", "RxnKnockOut", "SetRule", "GeneKnockOut", "KnockOutModelGenes", "RemoveGenes",
                    "RenameGene", "RenameReaction", "RenameMetabolite", "SetObjective", "SetObjCoef", "SetDirection",
                    "SetMedium", "SwitchSolver", "AddUserCons", "AddUserVar", "RemoveUserCons", "RemoveUserVar",
-                   "AddGroup", "RemoveGroup", "Annotate", "Analyze", "RoundTrip", "GetMedium", "Init", "DetachedSetBounds", "RxnArith", "BuildFromString", "SetFunctional", "Repair", "FixObjective"}
+                   "AddGroup", "RemoveGroup", "Annotate", "SetAttr", "Analyze", "RoundTrip", "GetMedium", "Init", "DetachedSetBounds", "RxnArith", "BuildFromString", "SetFunctional", "Repair", "FixObjective"}
 \* operations that the documentation does NOT declare reversible inside `with model:`
-NotContextAware == {"AddGroup", "RemoveGroup", "Annotate", "RenameReaction", "RenameMetabolite", "DetachedSetBounds"}
+NotContextAware == {"AddGroup", "RemoveGroup", "Annotate", "SetAttr", "RenameReaction", "RenameMetabolite", "DetachedSetBounds"}
 
 \* left.merge(right, inplace=True, objective="left"): the reactions of right whose ids are new to left are added
 \* (as copies, with their metabolites and genes); user-added variables/constraints of right are copied by name;
@@ -496,6 +516,7 @@ A_Merge(C, R) ==
       C2 == [C1 EXCEPT !.sbo = [r \in RxU |-> IF r \in C1.rxns \ C.rxns THEN R.sbo[r] ELSE C1.sbo[r]],
                        !.ann = [x \in AllIds |-> IF x \in (C1.rxns \ C.rxns) THEN R.ann[x] ELSE C1.ann[x]],
                        !.note = [x \in AllIds |-> IF x \in (C1.rxns \ C.rxns) THEN R.note[x] ELSE C1.note[x]],
+                       !.attr = [x \in AllIds |-> IF x \in (C1.rxns \ C.rxns) \cup (C1.mets \ C.mets) THEN R.attr[x] ELSE C1.attr[x]],
                        !.xcols = @ \cup R.xcols,
                        \* custom rows only ("assumed to be the same if they have the same name": a row of right named
                        \* like a metabolite of left is not copied); mass balances of right's metabolites are not custom
@@ -554,7 +575,7 @@ Apply(op, St) ==
               T1 == AddRxns(St.m[op.t], <<[id |-> op.new, st |-> e.S, lb |-> e.lb, ub |-> e.ub, rule |-> e.rule]>>)
           IN \* the result is a copy of r: it carries r's annotation, notes and SBO term
           Lift(St, op.t, Ok([T1 EXCEPT !.ann[op.new] = St.m[s].ann[op.r], !.note[op.new] = St.m[s].note[op.r],
-                                       !.sbo[op.new] = St.m[s].sbo[op.r]]))
+                                       !.sbo[op.new] = St.m[s].sbo[op.r], !.attr[op.new] = St.m[s].attr[op.r]]))
   ELSE IF op.a = "Merge" THEN
      IF ~IsModel(St.m[op.t]) \/ op.t = s \/ St.helper[s] # 0 \/ St.helper[op.t] # 0 THEN Skip(St)
      ELSE Lift(St, s, A_Merge(St.m[s], St.m[op.t]))
@@ -570,7 +591,7 @@ Apply(op, St) ==
        IF ~St.det[s][op.r].present \/ op.r \in St.m[s].rxns THEN Skip(St)
        ELSE LET d == St.det[s][op.r] IN
             Lift(St, s, Ok([AddRxns(St.m[s], <<[id |-> op.r, st |-> d.st, lb |-> d.lb, ub |-> d.ub, rule |-> d.rule]>>)
-                              EXCEPT !.sbo[op.r] = d.sbo, !.ann[op.r] = d.ann, !.note[op.r] = d.note]))
+                              EXCEPT !.sbo[op.r] = d.sbo, !.ann[op.r] = d.ann, !.note[op.r] = d.note, !.attr[op.r] = d.attr]))
   ELSE IF op.a = "DetachedSetBounds" /\ St.det[s][op.r].present /\ op.r \notin St.m[s].rxns /\ op.lo <= op.hi THEN
        LET r == IF Len(St.ctx[s]) > 0 THEN Lift([St EXCEPT !.taint[s] = TRUE], s, Ok(St.m[s])) ELSE Lift(St, s, Ok(St.m[s])) IN
        SRes([r.st EXCEPT !.det[s][op.r].lb = op.lo, !.det[s][op.r].ub = op.hi], "none", TRUE, NoRet)
